@@ -38,6 +38,7 @@ pub struct PeerCfg {
     pub steps: usize,
     /// 0: receiver-centred (C04), 1: state-machine-centred (C17), 2: sender-centred (C05)
     pub focus: u8,
+    pub keep_alive_ms: Option<u64>,
 }
 
 pub fn random_cfg(rng: &mut Rng, focus: u8) -> PeerCfg {
@@ -83,6 +84,7 @@ pub fn random_cfg(rng: &mut Rng, focus: u8) -> PeerCfg {
         seed: rng.next_u64(),
         steps: rng.urange(20, 400),
         focus,
+        keep_alive_ms: *rng.pick(&[None, None, None, Some(500u64), Some(5_000), Some(75_000)]),
     }
 }
 
@@ -231,6 +233,7 @@ impl PeerSim {
             let s = host.sockets.get_mut::<tcp::Socket>(h);
             s.set_nagle_enabled(cfg.nagle);
             s.set_ack_delay(cfg.ack_delay_ms.map(Duration::from_millis));
+            s.set_keep_alive(cfg.keep_alive_ms.map(Duration::from_millis));
             s.set_congestion_control(match cfg.cc {
                 0 => tcp::CongestionControl::None,
                 1 => tcp::CongestionControl::Reno,
@@ -240,7 +243,8 @@ impl PeerSim {
         let me = Addr::from_smol(a_me);
         let peer = Addr::from_smol(a_peer);
         let tag_sock = case_tag ^ 0xaaaa;
-        let smon = SenderMon::new(tag_sock, me, peer, SOCK_PORT, PEER_PORT, cfg.mtu, cfg.rx_buf);
+        let mut smon = SenderMon::new(tag_sock, me, peer, SOCK_PORT, PEER_PORT, cfg.mtu, cfg.rx_buf);
+        smon.keep_alive = cfg.keep_alive_ms.is_some();
         let mut sim = PeerSim {
             host,
             h,
